@@ -55,6 +55,7 @@ def sampled_check(contract, ip, n=80, seed=0):
     rng = random.Random(1000 + seed)
     model = contract.model(ip) if hasattr(contract, 'model') else None
     maxargs = contract.maxargs if getattr(contract, 'maxargs', None) is not None else (len(model) if model else 2)
+    maxargs = getattr(contract, 'sample_args', maxargs)
     module, function = contract.qual.split('.', 1)
     failures = []
     outcomes = set()
